@@ -212,7 +212,12 @@ impl FailSafe {
 
         kv.access(|mut kv, buf| {
             if let Some(fab_idx) = NonZeroU8::new(fab_idx_raw) {
-                fabrics.remove(fab_idx)?;
+                // The fabric of the context might be gone already (`RemoveFabric` by another
+                // administrator while the fail-safe was armed). That is no reason not to
+                // expire: failing here would leave the fail-safe armed - and due - for good.
+                if fabrics.get(fab_idx).is_some() {
+                    fabrics.remove(fab_idx)?;
+                }
                 fabrics.add_load(fab_idx.get(), &mut kv, buf)?;
 
                 removed_fabric = fabrics.get(fab_idx).is_none().then_some(fab_idx);
